@@ -4,7 +4,7 @@
    passwd.go / group.go on this run (Generated/FieldLetters.v). *)
 From Apko Require Import Base.Prelude Base.C16Lib Model.Formats Spec.FormatsSpec
   Proofs.FormatsProofs Proofs.FormatsPasswd Proofs.FormatsPath Proofs.FormatsSort Proofs.FormatsInstalled
-  Proofs.FormatsFixpoint Proofs.FormatsFit Proofs.FormatsFields Proofs.FormatsReach Proofs.FormatsReaders Generated.FieldLetters.
+  Proofs.FormatsFixpoint Proofs.FormatsFit Proofs.FormatsFields Proofs.FormatsReach Proofs.FormatsReaders Proofs.FormatsDb Generated.FieldLetters.
 
 (* the APKINDEX template in the source is the one the theorems are about *)
 Theorem c16_index_template_pinned :
@@ -559,3 +559,47 @@ Proof.
   split; [exact (load_file_count parse_user default_max_token)|]. split; [exact (load_file_count parse_group default_max_token)|exact (@entry_count_tags_iff)].
 Qed.
 Print Assumptions c16_load_one_entry_per_line.
+
+(* ---- lib/apk/db/installed with SEVERAL records ------------------------------------------------
+   [write_db]: AddInstalledPackage called for each record in turn on one file (append
+   mode).  [rec_ok]: one record inside the envelope of c16_installed_fixpoint (package
+   inst_pkg_ok and named, file list in sort_envelope with id_ok, every field fits).
+   For EVERY list of such records, of any length: ParseInstalled returns exactly one
+   record per written record, in order, each being what it is read as when alone
+   ([readback_of]: norm_inst of the package, the sortTarHeaders order of the files
+   with the reader's spelling) -- the reader resets its state at the blank line, so
+   no directory, file or field of a record leaks into the next; every record can be
+   written again, and the new file is the old one without the Z: lines (C16-F2) and
+   with other i: lines (C16-F1), every other line identical and in order. *)
+Theorem c16_installed_db_roundtrip :
+  forall (enc : list N -> string) (dec hexdec : string -> option (list N)),
+  (forall b, dec (enc b) = Some b) ->
+  forall rs t, Forall (rec_ok enc hexdec) rs -> write_db enc hexdec rs = Ok t ->
+  parse_installed dec t = Ok (map readback_of rs) /\
+  Forall (fun r => exists sorted, sort_headers (snd r) = Ok sorted /\ readback_of r = (norm_inst (fst r), map rec_clean sorted) /\
+                    SamePkgButInstallIf (fst r) (fst (readback_of r)) /\
+                    p_installif (fst (readback_of r)) = go_slice_readback (p_installif (fst r)) /\
+                    Permutation.Permutation sorted (snd r)) rs.
+Proof.
+  intros enc dec hexdec codec rs t Hok Hw.
+  exact (conj (db_roundtrip enc dec hexdec codec rs t Hok Hw) (db_records_survive enc hexdec rs Hok)).
+Qed.
+Print Assumptions c16_installed_db_roundtrip.
+
+Theorem c16_installed_db_fixpoint :
+  forall (enc : list N -> string) (dec hexdec : string -> option (list N)),
+  (forall b, dec (enc b) = Some b) ->
+  forall rs t, Forall (rec_ok enc hexdec) rs -> write_db enc hexdec rs = Ok t ->
+  exists t', parse_installed dec t = Ok (map readback_of rs) /\
+    write_db enc hexdec (map readback_of rs) = Ok t' /\ InstalledFixpointModIZ t t'.
+Proof. exact db_fixpoint. Qed.
+Print Assumptions c16_installed_db_fixpoint.
+
+Example c16_installed_db_ex :
+  let rs := [(ex_pkg, ex_files); (ex_pkg, ex_files)] in
+  Forall (rec_ok wenc whex) rs /\ exists t, write_db wenc whex rs = Ok t.
+Proof.
+  cbn zeta. destruct c16_installed_fixpoint_ex as (A1 & A2 & A3 & A4 & A5 & A6 & _).
+  split; [|eexists; vm_compute; reflexivity].
+  constructor; [constructor; assumption|constructor; [constructor; assumption|constructor]].
+Qed.
